@@ -127,6 +127,30 @@ def rule_blocking(ctx):
         if r.check(base is not None and base[1] is not None, anchor, "no-splitter", "the clause is a component of a splitter's result", "cannot relate the blocking clause to the member / complement split of the current set", a.loc()):
             roles = splitter_roles(prog, base[0])
             r.check(roles.get(base[1]) == "complement", anchor, "clause-role:%s" % roles.get(base[1]), "the blocking clause holds the literals of the arguments (range elements) *outside* the current set", "the blocking clause is built from the %s literals instead of the complement: it does not exclude the subsets of the current set" % roles.get(base[1]), a.loc())
+            # nothing but the selector is added to the two halves of the split (inside the closure or closures nested in it)
+            extra = []
+            for y in prog.with_closures(cb):
+                for ps in y.calls():
+                    if callee_decl(callee_of(ps)) in ("alloc::vec::Vec::push", "alloc::vec::Vec::insert") and "sat_solver::Literal" in str(callee_of(ps).get("substs")):
+                        pl = tags.literals_of(prog, y, ps.node["args"][-1], set()) if False else tags.literal(prog, y, ps.node["args"][-1], set())
+                        if not pl or any(l.role != "SEL" for l in pl):
+                            extra.append((ps, pl))
+                    elif callee_decl(callee_of(ps)) in ("alloc::vec::Vec::append", "core::iter::traits::collect::Extend::extend", "alloc::vec::Vec::extend_from_slice") and "sat_solver::Literal" in str(callee_of(ps).get("substs")):
+                        # extra assumptions handed to the constructor by its caller (the ideal computer's forbidden arguments) are its contract
+                        src = ps.node["args"][1] if len(ps.node["args"]) > 1 else None
+                        from_ctor_param = False
+                        if src is not None and y.kind == "closure":
+                            os2 = origins(y, src, transparent=("alloc::slice::to_vec", "alloc::slice::<impl [T]>::to_vec", "core::clone::Clone::clone", "core::ops::deref::Deref::deref", "alloc::vec::Vec::as_slice"))
+                            ups = [o for o in os2 if o.kind == "upvar"]
+                            if ups and len(ups) == len(os2):
+                                from_ctor_param = True
+                                for o in ups:
+                                    par, cap = tags._closure_capture_operand(prog, y, o.data)
+                                    if cap is None or not all(oo.kind == "param" for oo in origins(par, cap)):
+                                        from_ctor_param = False
+                        if not from_ctor_param:
+                            extra.append((ps, "a whole collection"))
+            r.check(not extra, anchor, "extra-literals:%s" % [str(x[1])[:60] for x in extra][:3], "only the selector is added to the halves of the split", "the %s function adds %s to the clause / assumptions built from the split: the blocking clause is weakened or the next search is restricted to supersets of what was assumed" % (kind, [str(x[1])[:60] for x in extra][:2]), extra[0][0].loc() if extra else cb.loc())
             if kind == "increase_current_fn":
                 rl = tags.literals_of(prog, cb, {"c": {"l": 0, "p": []}}, set())
                 r.check(any(l.role == "SEL" and l.pos is False for l in rl), anchor, "returned-assumptions:%s" % rl, "returned assumptions contain the negated selector", "the increase function's assumptions do not contain the negated selector: its own blocking clauses are switched off", cb.loc())
@@ -282,6 +306,26 @@ def rule_driver_loops(ctx):
                             exits_ok = True
             r.check(exits_ok, b.id + "|exit", "no-exit-on-none", "the loop leaves when the computer reports None / Maximal", "the driving loop has no exit on the computer's terminal state", s.loc())
     r.floor(n, 4, "loops driving a MaximalExtensionComputer")
+    # CO / ST: a query never starts further queries per listed argument (each would make its own SAT calls)
+    for path in ("solvers::complete_semantics_solver::CompleteSemanticsSolver", "solvers::stable_semantics_solver::StableSemanticsSolver"):
+        for b in prog.lib_bodies():
+            fnb = prog.enclosing_fn(b)
+            if not fnb.impl or fnb.impl.get("self_adt") != path:
+                continue
+            own_solves = any(callee_matches(callee_of(x), SOLVE) for y in prog.with_closures(fnb) for x in y.calls())
+            for s in b.calls():
+                c = callee_of(s)
+                if c is None or c.get("trait") not in ("solvers::specs::CredulousAcceptanceComputer", "solvers::specs::SkepticalAcceptanceComputer", "solvers::specs::SingleExtensionComputer"):
+                    continue
+                t = prog.body_for_callee(c, b)
+                same = (t is not None and t.impl and t.impl.get("self_adt") == path) or (t is None and not c.get("virtual") and path in str(c.get("substs")))
+                # trait default methods (is_credulously_accepted & co.) are resolved to the trait: the receiver type tells
+                if not same and t is None and c.get("substs") and path.rsplit("::", 1)[-1] in str(c.get("substs")[0]):
+                    same = True
+                if not same:
+                    continue
+                nested = b.kind == "closure" or bool(b.in_loop(s.bb)) or own_solves
+                r.check(not nested, "%s|requery" % fnb.id, "query-per-argument", "delegates once to the sibling method", "%s starts another query of the same solver %s: the SAT calls of a query are multiplied by the number of listed arguments" % (fnb.path.rsplit("::", 1)[-1], "inside a closure / loop" if (b.kind == "closure" or b.in_loop(s.bb)) else "besides its own SAT calls"), s.loc())
     # CO / ST call structure
     for path, per_loop in (("solvers::complete_semantics_solver::CompleteSemanticsSolver", False), ("solvers::stable_semantics_solver::StableSemanticsSolver", True)):
         for b in prog.lib_bodies():
@@ -479,3 +523,62 @@ def rule_selector_freshness(ctx):
             created_in = lits[0].site.bb in loops[inner]
             r.check(created_in, "%s|retire#%d" % (b.id, n), "selector-outlives-iteration", "the retired selector was created in the same iteration", "a selector created before the loop is retired inside it and used again in the next iteration: the query clause it guards is dead from the second iteration on", s.loc())
     r.floor(n, 1, "selectors retired inside a loop")
+
+
+def _selector_identity(prog, b, l):
+    """key of a selector made for one call: its creation site (`1 + n_vars()`), or the Literal parameter through which every caller
+    hands such a selector to a helper; None for anything else (the computer's own selector, argument literals ..)"""
+    if l.many or "selector" in str(l.note or ""):
+        return None
+    if l.role == "SEL" and l.site is not None:
+        return ("site", l.site.body.id, l.site.bb, l.site.si)
+    m = re.match(r"^param#(\d+)$", str(l.note or ""))
+    if l.role == "PARAM" and m and b.kind != "closure":
+        k = int(m.group(1))
+        if not b.local_ty(k).endswith("sat::sat_solver::Literal"):
+            return None
+        cs = prog.callers_of(b)
+        if not cs:
+            return None
+        for c in cs:
+            if k - 1 >= len(c.node["args"]):
+                return None
+            ls = tags.literal(prog, c.body, c.node["args"][k - 1], set())
+            if not ls or not all(x.role == "SEL" and x.site is not None and x.pos and "selector" not in str(x.note or "") for x in ls):
+                return None
+        return ("param", b.id, k)
+    return None
+
+
+def rule_local_selector_retired(ctx):
+    prog = ctx.prog
+    r = ctx.rule(
+        "query-clauses-retired",
+        "in the static solvers a selector made for one SAT call (`1 + n_vars()`, assumed positively, guarding a clause that states the query) is "
+        "retired afterwards by the unit clause of its *negation*, and is never asserted positively: a clause guarded by an asserted selector "
+        "stays active for every later call on the same solver (the next range iteration, the next component), so query-local clauses leak",
+    )
+    n = 0
+    for b in sorted(prog.lib_bodies(), key=lambda x: x.id):
+        fnb = prog.enclosing_fn(b)
+        if not (fnb.path.startswith("solvers::") or "<solvers::" in fnb.path.split(" as ")[0]):
+            continue
+        adds = [s for s in b.calls() if callee_matches(callee_of(s), r"sat_solver::SatSolver::add_clause$")]
+        solves = [s for s in b.calls() if callee_matches(callee_of(s), r"sat_solver::SatSolver::solve_under_assumptions$")]
+        units = []
+        for a in adds:
+            lits = tags.literals_of(prog, b, a.node["args"][1], set())
+            if len(lits) == 1 and _selector_identity(prog, b, lits[0]) is not None:
+                units.append((a, lits[0], _selector_identity(prog, b, lits[0])))
+        for k, (a, l, _) in enumerate(units):
+            r.check(l.pos is False, "%s|unit#%d" % (b.id, k), "selector-asserted", "the unit clause retires the selector (negative)", "a local selector is asserted by a unit clause instead of being retired: the clause it guards stays active for the rest of the solver's life", a.loc())
+        for k, s in enumerate(solves):
+            lits = tags.literals_of(prog, b, s.node["args"][1], set())
+            local = [(l, _selector_identity(prog, b, l)) for l in lits if l.pos and _selector_identity(prog, b, l) is not None]
+            if not local:
+                continue
+            n += 1
+            for l, ident in local:
+                ret = [a for a, u, uid in units if uid == ident and b.reaches(s.bb, a.bb)]
+                r.check(bool(ret), "%s|solve#%d" % (b.id, k), "selector-not-retired", "the selector assumed for this call is retired after it", "the selector assumed for this SAT call is never retired: the query clause it guards can be switched on again by a later selector with the same number", s.loc())
+    r.floor(n, 1, "SAT calls under a locally created selector")
